@@ -711,7 +711,8 @@ impl TInputProtocol for TBinaryProtocol<&mut Bytes> {
     fn read_list_begin(&mut self) -> Result<TListIdentifier, ThriftException> {
         let element_type: TType = self.read_byte().and_then(|n| Ok(field_type_from_u8(n)?))?;
         let size = self.read_i32()?;
-        Ok(TListIdentifier::new(element_type, size as usize))
+        let size = super::check_wire_count(size as i64, Some(self.trans.len()))?;
+        Ok(TListIdentifier::new(element_type, size))
     }
 
     #[inline]
@@ -723,7 +724,8 @@ impl TInputProtocol for TBinaryProtocol<&mut Bytes> {
     fn read_set_begin(&mut self) -> Result<TSetIdentifier, ThriftException> {
         let element_type: TType = self.read_byte().and_then(|n| Ok(field_type_from_u8(n)?))?;
         let size = self.read_i32()?;
-        Ok(TSetIdentifier::new(element_type, size as usize))
+        let size = super::check_wire_count(size as i64, Some(self.trans.len()))?;
+        Ok(TSetIdentifier::new(element_type, size))
     }
 
     #[inline]
@@ -736,7 +738,8 @@ impl TInputProtocol for TBinaryProtocol<&mut Bytes> {
         let key_type: TType = self.read_byte().and_then(|n| Ok(field_type_from_u8(n)?))?;
         let value_type: TType = self.read_byte().and_then(|n| Ok(field_type_from_u8(n)?))?;
         let size = self.read_i32()?;
-        Ok(TMapIdentifier::new(key_type, value_type, size as usize))
+        let size = super::check_wire_count(size as i64, Some(self.trans.len()))?;
+        Ok(TMapIdentifier::new(key_type, value_type, size))
     }
 
     #[inline]
@@ -926,7 +929,8 @@ where
             .await
             .and_then(|n| Ok(field_type_from_u8(n)?))?;
         let size = self.read_i32().await?;
-        Ok(TListIdentifier::new(element_type, size as usize))
+        let size = super::check_wire_count(size as i64, None)?;
+        Ok(TListIdentifier::new(element_type, size))
     }
 
     #[inline]
@@ -941,7 +945,8 @@ where
             .await
             .and_then(|n| Ok(field_type_from_u8(n)?))?;
         let size = self.read_i32().await?;
-        Ok(TSetIdentifier::new(element_type, size as usize))
+        let size = super::check_wire_count(size as i64, None)?;
+        Ok(TSetIdentifier::new(element_type, size))
     }
 
     #[inline]
@@ -960,7 +965,8 @@ where
             .await
             .and_then(|n| Ok(field_type_from_u8(n)?))?;
         let size = self.read_i32().await?;
-        Ok(TMapIdentifier::new(key_type, value_type, size as usize))
+        let size = super::check_wire_count(size as i64, None)?;
+        Ok(TMapIdentifier::new(key_type, value_type, size))
     }
 
     #[inline]
